@@ -436,6 +436,23 @@ func (c *Ctx) ruleR04e(rule string) {
 					if p.eval(ee) == nsNonNil {
 						return
 					}
+					// ... or the result of a library helper that maps the call's own error to an error and a nil error
+					// to nil (an extracted applyName(err, pos))
+					if hc, ok := e0.(*ssa.Call); ok {
+						if h := hc.Call.StaticCallee(); h != nil && !hc.Call.IsInvoke() && c.P.InLib(h) && len(h.Blocks) > 0 && h.Signature.Results().Len() == 1 {
+							states := make([]nilState, len(hc.Call.Args))
+							hit := false
+							for i, a := range hc.Call.Args {
+								if ssax.Strip(a) == ssa.Value(ee) {
+									states[i] = nsNil
+									hit = true
+								}
+							}
+							if hit && helperNilness(h, states) == nsNil {
+								return
+							}
+						}
+					}
 					// ... or under a condition computed from that error (possibly by a helper)
 					if ei, isI := e0.(ssa.Instruction); isI && ei.Block() != nil {
 						for _, cd := range ssax.DominatingConds(ei.Block()) {
